@@ -191,12 +191,26 @@ def h_refuse(ctx, cfg):
     pstat = {p: ctx.is_true(ctx.bool("pm%d" % i)) for i, p in enumerate(pnames)}
     mask = [pstat[r[5]] for r in rows]
     s = concrete_screen(ctx, rows, observations=obs, mask=mask)
-    m = _mk_model(ctx, kind, full)
-    try:
-        m.add_observations(s)
-        ctx.prove(all(mask), "add_observations accepts only fully observed data", key="%s: masked rows accepted by add_observations" % kind)
-    except ValueError:
-        ctx.prove(not all(mask), "add_observations refuses data that still contains masked rows")
+    data = ctx.mod("batchie.data")
+    plates = s.plates
+    containers = [("screen", s, list(range(R))), ("whole-screen view", s.subset(np.array([True] * R, dtype=bool)), list(range(R))),
+                  ("concatenation of all plate views", data.ScreenSubset.concat(plates), list(range(R)))]
+    if len(plates) >= 2:
+        # views that are Plate objects but span several plates (combine / invert return the type of their first operand)
+        sv = [p.selection_vector.tolist() for p in plates]
+        containers.append(("first plate combined with the last", plates[0].combine(plates[-1]), [i for i in range(R) if sv[0][i] or sv[-1][i]]))
+        containers.append(("last plate combined with the first", plates[-1].combine(plates[0]), [i for i in range(R) if sv[0][i] or sv[-1][i]]))
+        containers.append(("complement of the first plate", plates[0].invert(), [i for i in range(R) if not sv[0][i]]))
+        containers.append(("complement of the last plate", plates[-1].invert(), [i for i in range(R) if not sv[-1][i]]))
+    for what, c, members in containers:
+        m = _mk_model(ctx, kind, full)
+        fully = all(mask[i] for i in members)
+        try:
+            m.add_observations(c)
+            ctx.prove(fully, "add_observations accepts only fully observed data (%s)" % what, key="%s: masked rows accepted by add_observations" % kind)
+        except ValueError:
+            ctx.prove(not fully, "add_observations refuses data that still contains masked rows (%s)" % what,
+                      key="%s: fully observed data refused by add_observations" % kind)
     # (b) a negative observation / (c) a NaN observation in an otherwise valid, fully observed screen
     tid = full.treatment_ids.tolist()
     combo_rows = [i for i in range(R) if tid[i][0] != -1 and tid[i][1] != -1]
